@@ -162,7 +162,10 @@ func RandomGraph(rng *rand.Rand, o GraphOpts) *world.Scenario {
 			}
 			var opts []string
 			for t, members := range count {
-				if t < 8 && len(members) == 1 && members[0] != i && !o.OnlyIface {
+				// one other instance of the type: either the only one, or the holder's own type with exactly
+				// one sibling (the holder itself is excluded, the sibling is the determined target)
+				sibling := len(members) == 2 && (members[0] == i || members[1] == i)
+				if t < 8 && ((len(members) == 1 && members[0] != i) || sibling) && !o.OnlyIface {
 					s := fmt.Sprintf("P%02d", t)
 					if _, used := g.Sc.Nodes[i].Tags[s]; !used {
 						opts = append(opts, s)
